@@ -1,34 +1,38 @@
 #!/usr/bin/env python3
-"""tools/benignrun.py <dir-with-numbered-subdirs-containing-patch.diff> : apply each behaviour-preserving patch to a scratch copy of /repo and
-run all 18 quick checks; print alarms (every alarm is a false alarm to be analysed)."""
+"""tools/benignrun.py <dir-with-subdirs-containing-patch.diff> [names..] : apply each behaviour-preserving patch to a scratch copy of /repo and
+run all 18 quick checks (tools/fastcheck.py, several trees in parallel); print alarms (every alarm is a false alarm to be analysed)."""
 import glob, json, os, shutil, subprocess, sys
+from concurrent.futures import ThreadPoolExecutor
 HERE = os.path.dirname(os.path.dirname(os.path.abspath(__file__)))
-base = sys.argv[1]
+base = os.path.abspath(sys.argv[1])
 only = sys.argv[2:]
-for pd in sorted(glob.glob(os.path.join(base, "*", "patch.diff"))):
+pds = [pd for pd in sorted(glob.glob(os.path.join(base, "*", "patch.diff"))) if not only or os.path.basename(os.path.dirname(pd)) in only]
+
+
+def one(pd):
     name = os.path.basename(os.path.dirname(pd))
-    if only and name not in only:
-        continue
-    d = "/var/tmp/benignrun-%s-%s" % (os.path.basename(os.path.dirname(base.rstrip("/"))), name)
+    d = "/var/tmp/benignrun-%d-%s" % (os.getpid(), name)
     shutil.rmtree(d, ignore_errors=True)
     subprocess.run(["rsync", "-a", "--exclude", "target", "--exclude", ".git", "/repo/", d + "/"], check=True)
-    r = subprocess.run(["patch", "-p1", "-s", "-i", pd], cwd=d, capture_output=True, text=True)
-    if r.returncode != 0:
-        print(name, "PATCH-NA", (r.stdout + r.stderr)[-150:].replace("\n", " "))
-        shutil.rmtree(d, ignore_errors=True)
-        continue
-    alarms = {}
-    for i in range(1, 19):
-        p = "C%02d" % i
-        rr = subprocess.run([os.path.join(HERE, "check"), p, "--repo", d], capture_output=True, text=True)
-        if rr.returncode == 2:
-            alarms[p] = ["ENGINE-ERROR " + rr.stderr[-200:]]
-        elif rr.returncode != 0:
-            alarms[p] = [l.strip()[5:][:90] for l in rr.stdout.splitlines() if l.strip().startswith("rule=")]
-    why = ""
     try:
-        why = open(os.path.join(os.path.dirname(pd), "why.txt")).read().strip().replace("\n", " ")[:160]
-    except OSError:
-        pass
-    print(name, "silent" if not alarms else "ALARM " + json.dumps(alarms), "|", why)
-    shutil.rmtree(d, ignore_errors=True)
+        r = subprocess.run(["patch", "-p1", "-s", "-i", pd], cwd=d, capture_output=True, text=True)
+        if r.returncode != 0:
+            return name, "PATCH-NA " + (r.stdout + r.stderr)[-150:].replace("\n", " ")
+        rr = subprocess.run([sys.executable, os.path.join(HERE, "tools", "fastcheck.py"), d], capture_output=True, text=True)
+        try:
+            alarms = json.loads(rr.stdout.strip().splitlines()[-1])
+        except Exception:
+            alarms = {"engine": ["ENGINE-ERROR " + (rr.stdout + rr.stderr)[-300:]]}
+        why = ""
+        try:
+            why = open(os.path.join(os.path.dirname(pd), "why.txt")).read().strip().replace("\n", " ")[:160]
+        except OSError:
+            pass
+        return name, ("silent" if not alarms else "ALARM " + json.dumps(alarms)) + " | " + why
+    finally:
+        shutil.rmtree(d, ignore_errors=True)
+
+
+with ThreadPoolExecutor(int(os.environ.get("JOBS", "6"))) as ex:
+    for name, line in ex.map(one, pds):
+        print(name, line, flush=True)
